@@ -21,7 +21,9 @@
 (*                        (closed form: BatchingOps.MakeBatch)             *)
 (*   Persist              Cluster._update_job_status                       *)
 (*   CheckComplete        HpcSubmitter._is_complete                        *)
-(*   Summary/MarkComplete JobSubmitter._handle_completion                  *)
+(*   Summary/Teardown/MarkComplete JobSubmitter._handle_completion (C16:   *)
+(*                        teardown command between summary and flag)       *)
+(*   NodeSetup/NodeTeardown jobs/job_runner.py JobRunner.run_jobs          *)
 (*   Demote               Cluster._demote_from_submitter                   *)
 (*   NodeInit/NodePoll    jobs/job_queue.py JobQueue.run/_check_completions*)
 (*                        /process_queue, jobs/async_cli_command.py        *)
@@ -111,6 +113,11 @@ EvExit(pid, k, code, exc) == [e |-> "exit", pid |-> pid, k |-> k, code |-> code,
 EvPromote(pid, host, ok, before, after, create) ==
   [e |-> "promote", pid |-> pid, host |-> host, ok |-> ok, exc |-> "", before |-> before, after |-> after, create |-> create]
 
+\* a lifecycle command runs (C16): which in {"setup", "teardown", "nsetup", "nteardown"}; b = -1 for the submission-level ones
+EvHook(which, pid, b, grp, nf, pr) ==
+  [e |-> "hook", which |-> which, b |-> b, envok |-> TRUE, grp |-> grp, rows |-> SeqOf(NamesOnDisk(nf, pr)), live |-> 0,
+   pid |-> pid, rc |-> 0]
+
 \* ---------------------------------------------------------------- initial state: right after Cluster.create in submit-jobs
 InitCfg(host) == [sub |-> host, nsub |-> 0, ndone |-> 0, complete |-> FALSE, canceled |-> FALSE, ver |-> 1]
 InitJs(Sc) == [st |-> [j \in ToSet(Sc.jobs) |-> 0], rem |-> [j \in ToSet(Sc.jobs) |-> ToSet(Sc.blk[j])],
@@ -138,7 +145,11 @@ Init ==
                       st |-> [j \in ToSet(S.jobs) |-> 0], rem |-> [j \in ToSet(S.jobs) |-> S.blk[j]], ids |-> <<>>,
                       bidx |-> 1, marker |-> FALSE, rows |-> <<>>],
                      EvPromote(1, "login", TRUE, "", "login", TRUE),
-                     [e |-> "rows", proc |-> <<>>, node |-> <<>>, ok |-> TRUE] >>)
+                     [e |-> "rows", proc |-> <<>>, node |-> <<>>, ok |-> TRUE] >>
+                  \o (IF S.hooks.setup     \* submit_jobs of a new submission: the setup command, before anything is handed over
+                        THEN <<[e |-> "hook", which |-> "setup", b |-> -1, envok |-> TRUE, grp |-> "", rows |-> <<>>, live |-> 0,
+                                pid |-> 1, rc |-> 0]>>
+                        ELSE <<>>))
            ELSE MonInit(S)
   /\ path = <<>> /\ elog = <<>>
 
@@ -361,7 +372,15 @@ Summary(s) ==
      IN Feed(<<"Summary", s, 0>>, <<EvRows(nodeFile, processed),
                [e |-> "summary", res |-> res, missing |-> missing, tally |-> <<nS, nF, nC, Len(missing)>>]>>)
   \* _handle_completion returns Status.ERROR (exit code 1) when the number of results differs from the number of jobs
-  /\ Set(s, [P(s) EXCEPT !.pc = "markcomplete", !.rc = IF Len(processed) # Cardinality(J) THEN 1 ELSE 0])
+  /\ Set(s, [P(s) EXCEPT !.pc = IF S.hooks.teardown THEN "teardown" ELSE "markcomplete",
+                         !.rc = IF Len(processed) # Cardinality(J) THEN 1 ELSE 0])
+  /\ UNCHANGED <<S, cfg, js, marker, bfile, hs, nodeFile, processed, jp, npid, nuser, ended, nfault, ncancel>>
+
+\* _handle_completion: the teardown command, after the results summary and before the completion flag
+Teardown(s) ==
+  /\ P(s).pc = "teardown"
+  /\ Set(s, [P(s) EXCEPT !.pc = "markcomplete"])
+  /\ Feed(<<"Teardown", s, 0>>, <<EvHook("teardown", P(s).pid, -1, "", nodeFile, processed)>>)
   /\ UNCHANGED <<S, cfg, js, marker, bfile, hs, nodeFile, processed, jp, npid, nuser, ended, nfault, ncancel>>
 
 MarkComplete(s) ==
@@ -404,7 +423,7 @@ StartBatch(b) ==
          maxw == IF g.procs > 0 THEN g.procs ELSE S.cpus
      IN /\ hs' = h1
         /\ npid' = npid + 1
-        /\ Set(RunSlot(b), [Idle EXCEPT !.kind = "run-jobs", !.pc = "ninit", !.pid = npid + 1, !.b = b,
+        /\ Set(RunSlot(b), [Idle EXCEPT !.kind = "run-jobs", !.pc = IF S.hooks.nsetup THEN "nsetup" ELSE "ninit", !.pid = npid + 1, !.b = b,
                                         !.depth = IF Len(jobs) < maxw THEN Len(jobs) ELSE maxw,
                                         !.nrem = [k \in 1..Len(jobs) |-> ToSet(bfile[b].hb[k])]])
         /\ Feed(<<"StartBatch", b, 0>>, <<[e |-> "hpc", what |-> "start", b |-> b, active |-> Active(h1)], EvProc(npid + 1, "run-jobs", FALSE, b)>>)
@@ -426,6 +445,18 @@ StartJobs(queue, outst, nremF, depth, started, initial) ==
 LaunchEvents(pid, b, started, outstBefore, rowsNow) ==
   [k \in 1..Len(started) |-> [e |-> "launch", job |-> started[k], b |-> b, rows |-> rowsNow, pid |-> pid,
                               live |-> outstBefore + k]]
+
+\* JobRunner.run_jobs: the node setup command before any job of the batch, the node teardown command after all of them
+NodeSetup(s) ==
+  /\ s \in B /\ P(s).pc = "nsetup"
+  /\ Set(s, [P(s) EXCEPT !.pc = "ninit"])
+  /\ Feed(<<"NodeSetup", s, 0>>, <<EvHook("nsetup", P(s).pid, P(s).b, S.grp[bfile[P(s).b].jobs[1]], nodeFile, processed)>>)
+  /\ UNCHANGED <<S, cfg, js, marker, bfile, hs, nodeFile, processed, jp, npid, nuser, ended, nfault, ncancel>>
+NodeTeardown(s) ==
+  /\ s \in B /\ P(s).pc = "nteardown"
+  /\ Set(s, [P(s) EXCEPT !.pc = "ntry"])
+  /\ Feed(<<"NodeTeardown", s, 0>>, <<EvHook("nteardown", P(s).pid, P(s).b, S.grp[bfile[P(s).b].jobs[1]], nodeFile, processed)>>)
+  /\ UNCHANGED <<S, cfg, js, marker, bfile, hs, nodeFile, processed, jp, npid, nuser, ended, nfault, ncancel>>
 
 NodeInit(s) ==
   /\ s \in B /\ P(s).pc = "ninit"
@@ -494,7 +525,7 @@ NodePoll(s) ==
               /\ jp' = [j \in J |-> IF j \in ToSet(r.started) THEN "running"
                                     ELSE IF j \in exitedSet THEN "none" ELSE jp[j]]
               /\ Set(s, [p EXCEPT !.queue = r.queue, !.outst = r.outst, !.nrem = c.nrem,
-                                  !.pc = IF r.queue = <<>> /\ r.outst = <<>> THEN "ntry" ELSE "nwait"])
+                                  !.pc = IF r.queue = <<>> /\ r.outst = <<>> THEN (IF S.hooks.nteardown THEN "nteardown" ELSE "ntry") ELSE "nwait"])
               /\ Feed(<<"NodePoll", s, Len(c.rows) + Len(r.started)>>, RowEvents(1, nodeFile[p.b])
                       \o LaunchEvents(p.pid, p.b, r.started, Len(c.outst), SeqOf(NamesOnDisk(nf, processed))))
   /\ UNCHANGED <<S, cfg, js, marker, bfile, hs, processed, npid, nuser, ended, nfault, ncancel>>
@@ -681,8 +712,8 @@ End ==
 
 SubStep(s) == \/ Promote(s) \/ Poll(s) \/ Glob(s) \/ (\E b \in B : Move(s, b)) \/ CancelPass(s) \/ MarkerTouch(s)
               \/ NextGroup(s) \/ SubmitBatch(s) \/ SubmitBatchFail(s) \/ Persist(s) \/ CheckComplete(s) \/ MarkerRemove(s)
-              \/ Summary(s) \/ MarkComplete(s) \/ Demote(s)
-NodeStep(s) == NodeInit(s) \/ NodePoll(s) \/ NodeTry(s) \/ NodeEnd(s)
+              \/ Summary(s) \/ Teardown(s) \/ MarkComplete(s) \/ Demote(s)
+NodeStep(s) == NodeSetup(s) \/ NodeInit(s) \/ NodePoll(s) \/ NodeTeardown(s) \/ NodeTry(s) \/ NodeEnd(s)
 
 Next == \/ \E s \in Slots : SubStep(s) \/ NodeStep(s) \/ Kill(s) \/ CancelStep(s)
         \/ UserCancel
